@@ -50,7 +50,7 @@ def mk_converter(it, nshanks=2, fp_err=False):
         m = z3.Int(f"nchn{s}")
         it.ctx.assume(z3.And(m >= 1, m <= nc))
         ch = A.fresh_array(f"chns{s}", "int64", (m,), ranged=False)
-        ch.facts_on_read = (lambda idx, t: [t >= 0, t < nc])
+        A.assume_range(ch, 0, nc - 1)
         # per-shank channel list: where(shank == s) followed by the sync channel (proved in `channel_lists`)
         k, k2 = z3.Int(fresh_name("k")), z3.Int(fresh_name("k"))
         it.ctx.assume(z3.ForAll([k], z3.Implies(z3.And(k >= 0, k < m - 1), z3.And(ch.uf(k) >= 0, ch.uf(k) < napch)), patterns=[ch.uf(k)]))
